@@ -30,6 +30,9 @@ THEOREMS = [
     "Aio.C09.no_stale_pause",
     "Aio.C09.no_stale_pause_current",
     "Aio.C09.stale_pause_scenarios_repaired",
+    "Aio.C09.resumed_reader_raises_recorded_exception",
+    "Aio.C09.resumed_reader_reparks_unrepaired",
+    "Aio.C09.parked_reader_scenario_both_versions",
     "Aio.C09.lost_body_counterexample_peer_close",
     "Aio.C09.lost_body_counterexample_chunked_close",
     "Aio.C09.parked_reader_misses_error_counterexample",
@@ -43,6 +46,9 @@ RULE = ("a case = (side client|server, encoding identity|gzip|deflate|raw-deflat
         "error class, buffered size, the four pause/pending flags, eof, total_bytes, peak size. non-trivial = at least one "
         "body byte reached the reader or an error was reported; distinct by full case content.")
 TRUSTED_BASE = [
+    "behaviour flags waitRechecksException (does a reader resumed from _wait() raise a recorded exception) and "
+    "contentCodingLowercased are probed on the real classes on every run and written to lean/AioModel/Generated/C09.lean; the "
+    "consumer model is parametric in the first (World.waitRechecks), theorems hold for both values",
     "behaviour flag needsInputClearsPause: probed on every run by driving a real HttpPayloadParser + StreamReader through a "
     "feed_data() call that is asked to pause and returns PAYLOAD_NEEDS_INPUT at each of its return sites; written to "
     "lean/AioModel/Generated/C09.lean; the model is parametric in it (World.clearOnNeeds) and the theorems hold for both values "
@@ -134,7 +140,65 @@ def probe_needs_input_clears_pause():
     return res
 
 
+def probe_content_coding_lowercased():
+    """Behavioural probe: parse a response head and a request head carrying `Content-Encoding: GZIP` (and Zstd / BR /
+    Deflate) with the real parsers and look at `msg.compression` -- the value DeflateBuffer will compare with
+    "gzip"/"deflate"/"br"/"zstd".  -> {spelling: compression as parsed}"""
+    from aiohttp.http_parser import HttpRequestParserPy, HttpResponseParserPy
+    from aiohttp.base_protocol import BaseProtocol
+    loop = asyncio.new_event_loop()
+    res = {}
+    try:
+        for resp in (True, False):
+            for val in ("GZIP", "Zstd", "BR", "Deflate"):
+                proto = BaseProtocol(loop)
+                parser = (HttpResponseParserPy if resp else HttpRequestParserPy)(proto, loop, 2 ** 16)
+                start = b"HTTP/1.1 200 OK\r\n" if resp else b"POST / HTTP/1.1\r\nHost: a\r\n"
+                msgs, _, _ = parser.feed_data(start + b"Content-Encoding: " + val.encode() + b"\r\nContent-Length: 3\r\n\r\n")
+                res[("resp:" if resp else "req:") + val] = msgs[0][0].compression
+    finally:
+        loop.close()
+    return res
+
+
+def probe_wait_rechecks_exception():
+    """Behavioural probe: a real StreamReader.readany() coroutine is parked in _wait(); feed_data() completes its waiter
+    normally, then set_exception() records an error (no waiter registered any more); the coroutine is resumed.
+    Does it raise the recorded exception (repaired _wait) or return the buffered bytes (code before the repair)?"""
+    from aiohttp.streams import StreamReader
+    from unittest import mock
+    loop = asyncio.new_event_loop()
+    try:
+        proto = mock.Mock()
+        proto.connected = True
+        sr = StreamReader(proto, 2 ** 16, loop=loop)
+        coro = sr.readany()
+        fut = coro.send(None)                    # parked
+        sr.feed_data(b"x")
+        if not fut.done():
+            raise RuntimeError("probe: feed_data did not complete the waiter")
+        marker = RuntimeError("probe-marker")
+        sr.set_exception(marker)
+        try:
+            coro.send(None)
+        except StopIteration as e:
+            if e.value != b"x":
+                raise RuntimeError(f"probe: resumed readany returned {e.value!r}")
+            return False
+        except RuntimeError as e:
+            if e is marker:
+                return True
+            raise
+        raise RuntimeError("probe: resumed readany parked again with data buffered")
+    finally:
+        loop.close()
+
+
 def generate(repo):
+    wr_flag = probe_wait_rechecks_exception()
+    cc = probe_content_coding_lowercased()
+    cc_flag = all(v == k.split(":")[1].lower() for k, v in cc.items())
+    cc_detail = " ".join(f"{k}->{v}" for k, v in cc.items())
     res = probe_needs_input_clears_pause()
     sites = {k: v for k, v in res.items() if not k.endswith("(control)")}
     flag = all(sites.values())
@@ -146,6 +210,16 @@ def generate(repo):
         "returns PAYLOAD_NEEDS_INPUT has `_paused == False` afterwards, at every such return\n"
         f"(sites: {detail}) -/\n"
         f"def needsInputClearsPause : Bool := {'true' if flag else 'false'}\n"
+        "/-- probe: `msg.compression` of a head with `Content-Encoding: GZIP` / `Zstd` / `BR` / `Deflate` is the lower-case\n"
+        "coding name (content codings are case-insensitive, RFC 9110 8.4.1), so `DeflateBuffer` picks the decoder, the raw-deflate\n"
+        "sniff and the deflate eof check of that coding.  Not consulted by the pipeline model (its `sniff`/`checkEof`/decoder\n"
+        "columns are taken per run from the compression the real parser reported); recorded so that a change is visible and\n"
+        f"rebuilds the proofs.  ({cc_detail}) -/\n"
+        f"def contentCodingLowercased : Bool := {'true' if cc_flag else 'false'}\n"
+        "/-- probe: a real `StreamReader.readany()` parked in `_wait()`, woken normally by `feed_data`, resumed after\n"
+        "`set_exception` recorded an error, raises that error (`_wait` re-checks `_exception` after the wake-up) instead of\n"
+        "returning the buffered bytes -/\n"
+        f"def waitRechecksException : Bool := {'true' if wr_flag else 'false'}\n"
         "end Aio.Gen.C09\n")
     return {"AioModel/Generated/C09.lean": body}
 
@@ -952,7 +1026,9 @@ def _run_case(case, loop, rec, max_ops):
     if final is None:
         final = ("runaway", "op-budget")
         runaway[0] = ("op-budget", f"{len(trace)} operations without reaching end-of-body or an error (budget {max_ops})")
-    he = coding_value(case)      # DeflateBuffer compares the value as sent: `== "deflate"` decides sniff and the eof check
+    # oracle columns of the model: what the code under test decided -- DeflateBuffer compares `msg.compression` (as the real
+    # parser reported it for this very message) with "deflate" for the raw-deflate sniff and the eof check
+    he = getattr(p.msg, "compression", None)
     fr = {"L": f"L{len(wire)}", "C": "C", "E": "E"}[case["framing"]]
     lax = 1 if (case["side"] == "client") else 0
     ks = []
@@ -976,7 +1052,7 @@ def _run_case(case, loop, rec, max_ops):
             "tr_paused": p.tr.paused, "size": pstate._size, "n_ops": len(trace),
             "exc_pending": None if pstate._exception is None else err_name(pstate._exception),
             "stale_class": stale_birth[0] or "no-surviving-pause-flag-seen", "more_at_close": more_at_close[0],
-            "parked_with_exc": p.parked_with_exc, "runaway": runaway[0]}
+            "parked_with_exc": p.parked_with_exc, "runaway": runaway[0], "compression": getattr(p.msg, "compression", None)}
     return {"line": line, "impl": impl, "info": info}
 
 
@@ -993,7 +1069,8 @@ def oracle(ctx, case, info):
     limit = case["limit"]
     c = {k: case[k] for k in case}
     # --- content codings are case-insensitive: `Content-Encoding: GZIP` must decode like `gzip`
-    if case.get("ce_variant", "lower") != "lower":
+    if case.get("ce_variant", "lower") != "lower" and info.get("compression") != header_encoding(enc):
+        # the parser handed the spelling as sent to DeflateBuffer (code before the repair): wrong decoder
         fam = header_encoding(enc)
         good = ref[0] == "ok" and ((final == ("eof",) and delivered == ref[1]) or
                                    (final[0] == "stuck" and case["framing"] == "E" and not info["closed"]))
@@ -1276,6 +1353,23 @@ def probe_cases():
             out.append(dict(base, side=side, enc=enc, limit=1024, framing="C", body=hx(body), merge_head=True,
                             wire_segs=[hx(wire[:3 + len(b"%x" % half) - 1]), hx(wire[3 + len(b"%x" % half) - 1:])],
                             shape="text+probe-sniff"))
+    # (c) content-coding spelling: every coding in upper and title case, valid bodies (on the code before the repair these
+    #     all fail with the one known signature K11); once the parser lower-cases the value, a truncated `DEFLATE` body
+    #     must also get the deflate eof check and a raw-deflate `Deflate` body the first-byte sniff
+    lowered = all(v.islower() for v in probe_content_coding_lowercased().values())
+    for enc in [e for e in ("gzip", "deflate", "rawdeflate", "br", "zstd") if e in available_encodings()]:
+        body = compress(enc, text)
+        cwire = b"%x\r\n" % len(body) + body + b"\r\n0\r\n\r\n"
+        for variant in ("upper", "title"):
+            for side in ("client", "server"):
+                out.append(dict(base, side=side, enc=enc, limit=1024, framing="L", body=hx(body), wire_segs=[hx(body)],
+                                shape="text+probe-coding-case", ce_variant=variant))
+                out.append(dict(base, side=side, enc=enc, limit=1024, framing="C", body=hx(body),
+                                wire_segs=[hx(cwire[:5]), hx(cwire[5:])], shape="text+probe-coding-case", ce_variant=variant))
+            if lowered and enc in ("deflate", "rawdeflate"):
+                t = body[:-3]
+                out.append(dict(base, side="client", enc=enc, limit=1024, framing="L", body=hx(t), wire_segs=[hx(t)],
+                                shape="text+trunc+probe-coding-case", ce_variant=variant))
     # (b) concatenated members whose decoded sizes make the output budget of one decode step (max(limit, low_water)) run out
     #     exactly at a member boundary: 1024/512/2048 with limit 1024 (whole and 97-byte segments), 1025 x 3 with 97-byte segments
     encs = [e for e in ("deflate", "rawdeflate", "gzip", "zstd") if e in available_encodings()]
